@@ -495,6 +495,45 @@ def run(case, ctx):
               "%d" % (xy, p, len(got), pb["iobuf"], len(text)))
         check(mc.get_iobuf(p, xy[0], xy[1]) == text.decode("utf-8"),
               "iobuf-text", "")
+        if pb["seed"] % 3 == 0:
+            # the same questions through the command-line front ends
+            import io
+            import contextlib
+            ri = importlib.import_module("rig.scripts.rig_iobuf")
+            out, err = io.StringIO(), io.StringIO()
+            with contextlib.redirect_stdout(out), \
+                    contextlib.redirect_stderr(err):
+                rc = ri.main(["eth-root", str(xy[0]), str(xy[1]), str(p)])
+            ctx.hit("front_end_iobuf")
+            check(rc == 0 and out.getvalue() == text.decode("utf-8"),
+                  "iobuf-text", "rig-iobuf %d %d %d exited %r and printed %d "
+                  "characters, the console holds %d" %
+                  (xy[0], xy[1], p, rc, len(out.getvalue()),
+                   len(text.decode("utf-8"))))
+            rps = importlib.import_module("rig.scripts.rig_ps")
+            rows = list(rps.get_process_list(mc, xy[0], xy[1]))
+            ctx.hit("front_end_process_list")
+            want_rows = [(xy[0], xy[1], q, int(c.core_state[q]))
+                         for q in range(c.ncores)]
+            check([(a_, b_, q, int(st)) for a_, b_, q, st, _, _, _ in rows]
+                  == want_rows, "process-list",
+                  "chip %r: listed %r, the chip's cores are %r" %
+                  (xy, [(q, int(st)) for _, _, q, st, _, _, _ in rows][:6],
+                   [(q, s_) for _, _, q, s_ in want_rows][:6]))
+            mine = [r_ for r_ in rows if r_[2] == p]
+            check(mine and mine[0][4] == vals["rt_code"] and
+                  mine[0][5] == vals["app_name"].decode().rstrip("\0") and
+                  mine[0][6] == vals["app_id"], "process-list",
+                  "core %d listed as %r" % (p, mine[:1]))
+            st_name = STATE_NAMES[int(c.core_state[p])]
+            only = list(rps.get_process_list(mc, xy[0], xy[1],
+                                             states=["^%s$" % st_name]))
+            check([r_[2] for r_ in only] ==
+                  [q for q in range(c.ncores)
+                   if int(c.core_state[q]) == int(c.core_state[p])],
+                  "process-list-filter",
+                  "cores in state %s: listed %r" %
+                  (st_name, [r_[2] for r_ in only]))
         for i, v in enumerate(case["diag"]):
             c.poke(M.RTR_DIAG + 4 * i, "I", v)
         rd = mc.get_router_diagnostics(xy[0], xy[1])
